@@ -2,7 +2,7 @@
 //! body: `prog ; prog ; … ; sched: c c c …`   prog steps (comma separated): S | R<r> | F<nw|nr|wr|ov> | G<nw|nr|wr>
 //!   G = the same wild access made while running on a segment added by maybe_grow
 //! out: first `bounds=<bits>` (stack_ptr_in_bounds at bottom-1,bottom,top-1,top,0,max of coroutine 0),
-//!      then per resume `Susp | Comp(r) | Err(msg) | Gone`, finally `alive`
+//!      then per resume `Susp | Comp(r) | Err(msg) | Gone`, finally `alive cur=<1 if the thread still has a current suspender although no coroutine is running>`
 use crate::rng::Rng;
 use open_coroutine_core::common::constants::CoroutineState;
 use open_coroutine_core::coroutine::suspender::Suspender;
@@ -83,5 +83,6 @@ pub fn exec(body: &str, emit: &mut dyn FnMut(&str)) {
         };
         emit(&out);
     }
-    emit("alive");
+    // the resuming thread goes on as before: in particular it is not "inside a coroutine" any more
+    emit(&format!("alive cur={}", if Suspender::<(), ()>::current().is_some() { 1 } else { 0 }));
 }
